@@ -265,14 +265,97 @@ fn view_cases(rep: &mut Report, rng: &mut Rng, n: u64) {
     let _ = BTreeMap::<u8, u8>::new();
 }
 
+
+/// sessions and tasks: the frames a live subscriber received, the log, the snapshot written at the
+/// end of the run, and the history the SSE endpoint replays afterwards are the same frames
+fn session_task_view_cases(rep: &mut Report, rng: &mut Rng, n: u64) {
+    use crate::http::*;
+    for case_no in 0..n {
+        let scratch = Scratch::new("c03s");
+        let data_dir = scratch.path().join("data");
+        let ws = scratch.path().join("ws");
+        std::fs::create_dir_all(&ws).unwrap();
+        std::fs::write(ws.join("seed.txt"), "seed é 日本\n").unwrap();
+        let rt = tokio::runtime::Builder::new_multi_thread().worker_threads(2).enable_all().build().unwrap();
+        let app = ripd::verif_export::VerifApp::new(data_dir.clone(), ws.clone());
+        let engine = app.engine();
+        let is_task = rng.chance(1, 3);
+        let input = match rng.below(5) {
+            0 => json!({"tool": "bash", "args": {"command": "printf 'out é'; printf 'err 1.5e300 \\n' >&2; exit 3", "cwd": "."}}).to_string(),
+            1 => json!({"tool": "write", "args": {"path": "w.txt", "content": "x\u{0}y"}}).to_string(),
+            2 => json!({"tool": "grep", "args": {"pattern": "seed"}}).to_string(),
+            3 => json!({"checkpoint": {"action": "create", "label": "l é", "files": ["seed.txt"]}}).to_string(),
+            _ => "plain prompt with unicode 🙂 and a float 0.1".to_string(),
+        };
+        let (stream_id, live): (String, Vec<Value>) = rt.block_on(async {
+            if is_task {
+                let (_, v) = call_json(&app.router, "POST", "/tasks", Some(json!({"tool": "bash", "args": {"command": "printf 'a é'; printf b >&2; sleep 0.05; printf '\\377c'", "cwd": "."}}))).await;
+                let id = v["task_id"].as_str().unwrap_or("").to_string();
+                let live = sse_collect(&app.router, &format!("/tasks/{id}/events"), 4000, |v| v["type"] == "tool_task_status" && matches!(v["status"].as_str(), Some("exited") | Some("failed") | Some("cancelled"))).await;
+                (id, live)
+            } else {
+                let h = engine.create_session();
+                let id = h.session_id.clone();
+                let mut rx = h.subscribe();
+                engine.spawn_session(h, input.clone(), None, None);
+                let mut live = Vec::new();
+                let deadline = tokio::time::Instant::now() + std::time::Duration::from_secs(10);
+                loop {
+                    match tokio::time::timeout_at(deadline, rx.recv()).await {
+                        Ok(Ok(ev)) => {
+                            let v = serde_json::to_value(&ev).unwrap();
+                            let end = v["type"] == "session_ended";
+                            live.push(v);
+                            if end {
+                                break;
+                            }
+                        }
+                        _ => break,
+                    }
+                }
+                (id, live)
+            }
+        });
+        // let the snapshot writer finish
+        std::thread::sleep(std::time::Duration::from_millis(60));
+        let from_log: Vec<Value> = read_frames(&data_dir.join("events.jsonl")).into_iter().filter(|f| f["session_id"].as_str() == Some(stream_id.as_str())).collect();
+        rep.evaluations += 1;
+        rep.traces_validated += 1;
+        rep.count(if is_task { "task_view_cases" } else { "session_view_cases" });
+        rep.nontrivial_case(&format!("sviews|{case_no}|{}|{}", is_task, from_log.len()));
+        let case = json!({"case": case_no, "task": is_task, "input": if is_task { Value::Null } else { json!(input) }, "frames": from_log.len()});
+        if live != from_log {
+            rep.oracle_failure(if is_task { "C03|task|live-vs-log" } else { "C03|session|live-vs-log" }, &format!("the live subscriber received {} frames, the log holds {} (or they differ in content)", live.len(), from_log.len()), case.clone());
+        }
+        if !is_task {
+            let snap_path = data_dir.join("snapshots").join(format!("{stream_id}.json"));
+            let snap: Vec<Value> = std::fs::read(&snap_path).ok().and_then(|b| serde_json::from_slice::<Vec<Value>>(&b).ok()).unwrap_or_default();
+            if snap != from_log {
+                rep.oracle_failure("C03|session|snapshot-vs-log", &format!("the snapshot holds {} frames, the log {} (or they differ in content)", snap.len(), from_log.len()), case.clone());
+            }
+        }
+        // a subscriber that attaches after the end gets the whole history again
+        let uri = if is_task { format!("/tasks/{stream_id}/events") } else { format!("/sessions/{stream_id}/events") };
+        if is_task || rt.block_on(async { call(&app.router, "GET", &format!("/sessions/{stream_id}/events"), None).await.0 }) != axum::http::StatusCode::NOT_FOUND {
+            let late = rt.block_on(async { sse_collect(&app.router, &uri, 400, |v| v["type"] == "session_ended").await });
+            if is_task && late != from_log {
+                rep.oracle_failure("C03|task|late-subscriber-vs-log", &format!("a late subscriber received {} frames, the log holds {}", late.len(), from_log.len()), case.clone());
+            }
+        }
+        drop(app);
+        drop(rt);
+    }
+}
+
 pub fn run(opts: &Opts) -> Report {
     let mut rep = Report::new(
         "C03",
-        "wire: for every frame type of the regenerated schema, input objects with type-correct random values (unicode, 60 KB strings, nested JSON, u64::MAX, floats, legacy aliases on tags and fields, optional fields absent / null / present, defaulted fields absent, unknown extra keys, missing required fields) through real serde (read, write, write/read/write cycle through text) and through the Lean schema interpreter; payload depth 100-127; history: continuity histories with a live subscriber, comparing live frames, the log, replay_events and the sidecar frame for frame at wire level; non-trivial = accepted object, distinct by (variant, canonical output)",
+        "wire: for every frame type of the regenerated schema, input objects with type-correct random values (unicode, 60 KB strings, nested JSON, u64::MAX, floats, legacy aliases on tags and fields, optional fields absent / null / present, defaulted fields absent, unknown extra keys, missing required fields) through real serde (read, write, write/read/write cycle through text) and through the Lean schema interpreter; payload depth 100-127; history: continuity histories with a live subscriber, comparing live frames, the log, replay_events and the sidecar frame for frame at wire level; session runs (tool envelopes, checkpoint envelopes, prompts) and background tasks: live subscriber vs log vs end-of-run snapshot vs late SSE subscriber; non-trivial = accepted object, distinct by (variant, canonical output)",
     );
     let mut model = Model::spawn();
     let mut rng = Rng::new(opts.seed);
     wire_cases(&mut rep, &mut model, &mut rng, if opts.thorough { 40_000 } else { 4_000 } * opts.scale);
     view_cases(&mut rep, &mut rng, if opts.thorough { 300 } else { 40 } * opts.scale);
+    session_task_view_cases(&mut rep, &mut rng, if opts.thorough { 200 } else { 24 } * opts.scale);
     rep
 }
